@@ -18,10 +18,19 @@ D = 2
 class _Fam:
     name = "?"
     exact = True
+    N = 8
+    tol = (1e-7, 1e-7)
+    compare_fpv = True
+
+    def context(self):
+        """settings every operation and prediction of a history of this family runs under"""
+        import contextlib
+
+        return contextlib.nullcontext()
 
     def __init__(self, seed):
         self.g = util.gen(seed)
-        self.n = 8
+        self.n = self.N
         self.X = util.randn(self.g, *self.batch(), self.n, D)
         self.y = torch.sin(self.X.sum(-1)) + 0.1 * util.randn(self.g, *self.batch(), self.n)
         self.X2 = util.randn(self.g, *self.batch(), self.n + 1, D)
@@ -55,6 +64,25 @@ class Default(_Fam):
     def build(self):
         lik = gpytorch.likelihoods.GaussianLikelihood(batch_shape=torch.Size(self.batch()))
         return util.GP(self.X, self.y, lik, gpytorch.means.ConstantMean(batch_shape=torch.Size(self.batch())), self.kernel(lik))
+
+
+class DefaultIterative(Default):
+    """the iterative regime: no Cholesky (CG solves run to convergence), low-rank Lanczos root decompositions. Cached
+    low-rank roots are approximations: a prediction that is documented as exact must never be served from one.
+    fast_pred_var outputs themselves depend on which call built the root (not compared)."""
+
+    name = "default_iterative"
+    N = 30
+    tol = (2e-3, 2e-3)
+    compare_fpv = False
+
+    def context(self):
+        import contextlib
+
+        st = contextlib.ExitStack()
+        for c in (S.max_cholesky_size(0), S.max_root_decomposition_size(8), S.cg_tolerance(1e-4), S.eval_cg_tolerance(1e-4), S.max_cg_iterations(300), S.max_preconditioner_size(0)):
+            st.enter_context(c)
+        return st
 
 
 class Batch(Default):
@@ -183,7 +211,7 @@ class LMC(SVGP):
         self.y = torch.stack([self.y, self.y * 0.5, -self.y], -1)
 
 
-FAMILIES = {c.name: c for c in (Default, Batch, SKI, SKIDyn, SGPR, SVGP, SVGPU, SVGPMF, SVGPBD, LMC)}
+FAMILIES = {c.name: c for c in (Default, DefaultIterative, Batch, SKI, SKIDyn, SGPR, SVGP, SVGPU, SVGPMF, SVGPBD, LMC)}
 
 EXACT_OPS = ["pred", "pred_fpv", "pred_nodetach", "pred_skipvar", "pred_eager", "pred_batch", "train_step", "set_data", "set_targets", "load_sd", "load_sd_same", "fantasy", "prior", "backward", "train_eval"]
 VAR_OPS = ["pred", "pred_batch", "pred_skipvar", "pred_eager", "train_step", "load_sd", "load_sd_same", "prior", "backward", "train_eval"]
@@ -196,6 +224,7 @@ def ops_for(fam):
 def predict(m, xs, cfg=(False, True, False, True)):
     """(fast_pred_var, detach_test_caches, skip_posterior_variances, lazily_evaluate_kernels)"""
     with S.fast_pred_var(cfg[0]), S.detach_test_caches(cfg[1]), S.skip_posterior_variances(cfg[2]), S.lazily_evaluate_kernels(cfg[3]):
+        torch.manual_seed(1234)  # randomised sub-routines (Lanczos probe vectors) start from the same stream on both sides
         o = m(xs)
         return o.mean.detach().clone(), o.covariance_matrix.detach().clone()
 
@@ -216,18 +245,17 @@ def apply_op(fam, m, op, state):
     f = state["fam"]
     exact = f.exact
     if op == "pred":
-        predict(m, f.xs)
+        return predict(m, f.xs)
     elif op == "pred_fpv":
-        predict(m, f.xs, (True, True, False, True))
+        return predict(m, f.xs, (True, True, False, True))
     elif op == "pred_nodetach":
-        predict(m, f.xs, (False, False, False, True))
+        return predict(m, f.xs, (False, False, False, True))
     elif op == "pred_skipvar":
-        with S.skip_posterior_variances(True):
-            m(f.xs)
+        return predict(m, f.xs, (False, True, True, True))
     elif op == "pred_eager":
-        predict(m, f.xs, (False, True, False, False))
+        return predict(m, f.xs, (False, True, False, False))
     elif op == "pred_batch":
-        predict(m, f.xsb)
+        return predict(m, f.xsb)
     elif op == "train_step":
         m.train()
         lik = m.likelihood
